@@ -8,7 +8,8 @@ for l in open('/verif/properties.jsonl'):
         break
 anch = "; ".join("%s (%s)" % (m['name'], m['where']) for m in p['anchors'].get('mechanism', []))
 files = ", ".join(p['anchors'].get('files', []))
-t = open('/verif/tools/agent_prompt_benign.txt' if len(sys.argv) > 4 and sys.argv[4] == 'benign' else '/verif/tools/agent_prompt.txt').read()
+kind = sys.argv[4] if len(sys.argv) > 4 else ''
+t = open({'benign': '/verif/tools/agent_prompt_benign.txt', 'benign2': '/verif/tools/agent_prompt_benign2.txt'}.get(kind, '/verif/tools/agent_prompt.txt')).read()
 print(t.replace('{WT}', wt).replace('{TITLE}', p['title']).replace('{STATEMENT}', p['statement'])
       .replace('{QUANTIFIER}', p['quantifier']['text']).replace('{ANCHORS}', "files: " + files + ". mechanisms: " + anch)
       .replace('{HINT}', ("Suggestion for where to look (you may choose otherwise): " + hint) if hint else ""))
